@@ -87,6 +87,31 @@ fn main() {
     let rcfg = runtime_config(&args, 3000);
     let knobs = knobs_json(&rcfg);
     let seed = rcfg.seed;
+    if args.has("no-sim") {
+        // fidelity check: the same harness on real, unscheduled threads
+        let magic_hex = args.get("magic").unwrap_or("a70d");
+        let b0 = u8::from_str_radix(&magic_hex[0..2], 16).expect("--magic");
+        let b1 = u8::from_str_radix(&magic_hex[2..4], 16).expect("--magic");
+        let cfg = ErgConfig {
+            input: Input::file(entry.clone().into()),
+            mode: ErgMode::Compile,
+            py_magic_num: Some(erg_common::serialize::get_magic_num_from_bytes(&[b0, b1, 0, 0])),
+            target_version: Some(args.get("pyver").unwrap_or("3.11.0").parse().unwrap()),
+            ..ErgConfig::default()
+        };
+        let _ = erg_common::env::PYTHON_PATH.set(Ok(args.get("python").unwrap_or("python3").to_string()));
+        let _ = erg_common::env::PYTHON_SYS_PATH.set(vec![]);
+        let _ = erg_common::env::PYTHON_SITE_PACKAGES.set(vec![]);
+        let mut compiler = Compiler::new(cfg);
+        let src = std::fs::read_to_string(&entry).expect("cannot read entry module");
+        let res = compiler.compile(src, "exec");
+        let (ok, n) = match &res {
+            Ok(a) => (true, a.warns.len()),
+            Err(e) => (false, e.errors.len()),
+        };
+        println!("{}", json!({"harness": "simc", "class": "done", "no_sim": true, "ok": ok, "n": n}));
+        std::process::exit(0);
+    }
     let rt = Runtime::install(rcfg);
     simrt::install_panic_hook(rt, args.has("verbose"));
     {
